@@ -20,9 +20,10 @@ RULE = (
     "new, raise new from None, raise same type, return, yield again, raise StopAsyncIteration, raise "
     "StopIteration, raise RuntimeError, raise RuntimeError from the received exception, raise new from the "
     "received exception} x afterwards {stop, yield again, raise} x block outcome {normal, Exception, "
-    "BaseException, StopIteration, StopAsyncIteration, RuntimeError, GeneratorExit, KeyboardInterrupt} = 1008 "
-    "programs (the quantifier's 864 plus two explicit-cause handlers), each with and without suspensions "
-    "inside the generator (2016 runs). "
+    "BaseException, StopIteration, StopAsyncIteration, RuntimeError, GeneratorExit, KeyboardInterrupt, a falsy "
+    "exception instance} = 1134 programs (the quantifier's 864 plus two explicit-cause handlers and one more "
+    "block outcome), each with and without suspensions "
+    "inside the generator (2268 runs). "
     "Oracle: contextlib.asynccontextmanager around the same generator function - same bound value, same "
     "generator event log (started / resumed / thrown type; cleanup GeneratorExit ignored), same outcome class: "
     "the block's own object propagates / another exception (type, which planned object) / suppressed / "
@@ -47,11 +48,19 @@ HANDLERS = ["none", "finally", "swallow", "re-raise", "raise-new", "raise-new-fr
             "raise-RuntimeError-from-exc", "raise-new-from-exc"]
 AFTER = ["stop", "yield-again", "raise"]
 BLOCK = ["normal", "Exception", "BaseException", "StopIteration", "StopAsyncIteration", "RuntimeError",
-         "GeneratorExit", "KeyboardInterrupt"]
+         "GeneratorExit", "KeyboardInterrupt", "FalsyError"]
+
+
+class FalsyError(Exception):
+    """an exception instance that is falsy (e.g. a container-like error with no entries)"""
+
+    def __bool__(self):
+        return False
+
 EXC = {"Exception": Exception, "BaseException": BaseException, "StopIteration": StopIteration,
        "StopAsyncIteration": StopAsyncIteration, "RuntimeError": RuntimeError, "GeneratorExit": GeneratorExit,
        "KeyboardInterrupt": KeyboardInterrupt, "KeyError": KeyError, "LookupError": LookupError,
-       "ValueError": ValueError, "CustomBase": type("CustomBase", (BaseException,), {}),
+       "ValueError": ValueError, "FalsyError": FalsyError, "CustomBase": type("CustomBase", (BaseException,), {}),
        "CustomRuntime": type("CustomRuntime", (RuntimeError,), {}),
        "CustomStop": type("CustomStop", (StopAsyncIteration,), {})}
 
